@@ -14,7 +14,13 @@ head = subprocess.run(['git', '-C', '/repo', 'log', '--format=%h', '-1'], captur
 os.makedirs('/tmp/sw', exist_ok=True)
 wt = '/tmp/sw/rec-%s-%d' % (sid, os.getpid())
 bindir = tempfile.mkdtemp(prefix='vbin.', dir='/tmp')
-subprocess.run(['git', '-C', '/repo', 'worktree', 'add', '--detach', wt, 'HEAD'], capture_output=True, check=True)
+import time
+for attempt in range(20):
+    if subprocess.run(['git', '-C', '/repo', 'worktree', 'add', '--detach', wt, 'HEAD'], capture_output=True).returncode == 0:
+        break
+    time.sleep(0.5 + attempt * 0.3)
+else:
+    sys.exit('git worktree add failed')
 try:
     r = subprocess.run(['git', '-C', wt, 'apply', "--exclude=*policies.yaml", d + '/patch.diff'], capture_output=True, text=True)
     if r.returncode != 0:
